@@ -431,24 +431,49 @@ func (a *analyzer) transferBlock(fn *ssa.Function, b *ssa.BasicBlock, st *state,
 					if ld, ok := bo.X.(*ssa.UnOp); ok && ld.Op == token.MUL && isRecvField(ld.X, fn, a.posIdx, a.cursorT) {
 						if c, ok := bo.Y.(*ssa.Call); ok {
 							if bi, ok := c.Call.Value.(*ssa.Builtin); ok && bi.Name() == "len" {
-								if fs, ok := c.Call.Args[0].(*ssa.Call); ok && fs.Call.StaticCallee() != nil && fs.Call.StaticCallee().Name() == "FindString" {
-									if sl, ok := fs.Call.Args[1].(*ssa.Slice); ok && sl.High == nil {
-										m, have := st.marks["v:"+sl.Low.Name()]
-										re := fs.Call.Args[0]
-										anch := false
-										if mc, ok := re.(*ssa.Call); ok && mc.Call.StaticCallee() != nil && mc.Call.StaticCallee().Name() == "MustCompile" {
-											if cs, ok := mc.Call.Args[0].(*ssa.Const); ok && strings.HasPrefix(constant.StringVal(cs.Value), "^") {
-												anch = true
-											}
+								// the matched text: FindString(re, input[pos:]), or a merge of several such matches taken
+								// at the same position (name := re1.FindString(...); if name == "" { name = re2.FindString(...) })
+								var matches []*ssa.Call
+								okShape := true
+								var collect func(v ssa.Value, depth int)
+								collect = func(v ssa.Value, depth int) {
+									switch y := v.(type) {
+									case *ssa.Call:
+										if y.Call.StaticCallee() != nil && y.Call.StaticCallee().Name() == "FindString" {
+											matches = append(matches, y)
+											return
 										}
-										_ = anch // anchoring matters for C06.Q10 (no text skipped), not for the bound: any match is a substring of input[pos:]
-										if have && m == (iv{0, 0}) && st.ov <= 0 {
-											okLemma = true
-											ov := st.ov
-											st.shift(iv{0, INF})
-											st.ov = ov // still <= len by the lemma
+										okShape = false
+									case *ssa.Phi:
+										if depth > 2 {
+											okShape = false
+											return
 										}
+										for _, e := range y.Edges {
+											collect(e, depth+1)
+										}
+									default:
+										okShape = false
 									}
+								}
+								collect(c.Call.Args[0], 0)
+								allAtPos := okShape && len(matches) > 0
+								for _, fs := range matches {
+									sl, ok := fs.Call.Args[1].(*ssa.Slice)
+									if !ok || sl.High != nil || sl.Low == nil {
+										allAtPos = false
+										break
+									}
+									// any match is a substring of input[pos:] (anchoring matters for C06.Q10 - no text skipped - not for the bound)
+									if m, have := st.marks["v:"+sl.Low.Name()]; !have || m != (iv{0, 0}) {
+										allAtPos = false
+									}
+								}
+								if allAtPos && st.ov <= 0 {
+									okLemma = true
+									ov := st.ov
+									st.shift(iv{0, INF})
+									st.ov = ov // still <= len by the lemma
 								}
 							}
 						}
